@@ -25,7 +25,7 @@ ASSUMPTIONS = ['order between the invariant blocks of different active states is
                'conditions are side-effect free apart from the probe']
 KINDS = ['state.pre', 'state.post', 'state.inv', 'trans.pre', 'trans.inv_before', 'trans.post', 'trans.inv_after',
          'state.inv_on_none_step']
-REQUIRED_COUNTERS = ['grammar_steps_checked', 'faults_injected', 'old_values_checked'] + ['fault_' + k for k in KINDS]
+REQUIRED_COUNTERS = ['text_collision_steps', 'grammar_steps_checked', 'faults_injected', 'old_values_checked'] + ['fault_' + k for k in KINDS]
 TIERS = dict(quick=dict(steps=25, faults=25, gen=dict(max_states=10, max_depth=4, max_trans=12)),
              thorough=dict(steps=45, faults=400, gen=dict(max_states=16, max_depth=5, max_trans=20)))
 
@@ -80,9 +80,15 @@ class VCoder(build.Coder):
         return self._bump(build.Coder.action(self, ch, t))
 
     def cond(self, ch, owner_is_transition, cid, kind):
+        import zlib
+        h = zlib.crc32(cid.encode())
+        # one condition in three also calls the documented active() predicate in the middle of the step
+        act = ''
+        if h % 3 == 0:
+            act = ' and (active(%r) or True)' % ch['order'][(h // 3) % len(ch['order'])]
         if kind == 'pre':
-            return 'K(%r, time, None)' % cid
-        return 'K(%r, time, (__old__.v, __old__.box.n, len(__old__.lst)))' % cid
+            return 'K(%r, time, None)%s' % (cid, act)
+        return 'K(%r, time, (__old__.v, __old__.box.n, len(__old__.lst)))%s' % (cid, act)
 
 
 CODER = VCoder()
@@ -178,7 +184,84 @@ def check_grammar(ch, tr, sc, tmap, step, log, config_after, vstate):
     return None, occ
 
 
+def collision_case(acc, rnd):
+    """The same source text used both as executable code and as a contract condition (legal: code fields are arbitrary
+    strings): every use must keep its own meaning - a condition that is true must not raise, each use runs once."""
+    from sismic.model import BasicState, CompoundState, Statechart, Transition
+    calls = []
+
+    def Z():
+        calls.append('Z')
+        return True
+
+    def Y():
+        calls.append('Y')
+        return True
+    texts = ['Z()', 'Y()']
+    rnd.shuffle(texts)
+    t1, t2 = texts
+    sc = Statechart('collision')
+    sc.add_state(CompoundState('root', initial='a'), None)
+    a = BasicState('a', on_entry=t1 if rnd.random() < 0.7 else None, on_exit=t2 if rnd.random() < 0.5 else None)
+    b = BasicState('b', on_entry=t2 if rnd.random() < 0.5 else None)
+    if rnd.random() < 0.5:
+        a.preconditions.append(t2)
+    if rnd.random() < 0.7:
+        a.invariants.append(t1)
+    if rnd.random() < 0.7:
+        b.invariants.append(t1)
+    if rnd.random() < 0.5:
+        b.preconditions.append(t1)
+    sc.add_state(a, 'root')
+    sc.add_state(b, 'root')
+    tr = Transition('a', 'b', event='go', action=t1 if rnd.random() < 0.7 else t2, guard=t2 if rnd.random() < 0.3 else None)
+    if rnd.random() < 0.8:
+        tr.preconditions.append(t1)
+    if rnd.random() < 0.5:
+        tr.postconditions.append(t2)
+    sc.add_transition(tr)
+    sc.add_transition(Transition('b', 'a', event='back', action=t2))
+    it = Interpreter(sc, initial_context=dict(Z=Z, Y=Y))
+    acc.count('text_collision_cases')
+    wit = dict(texts=[t1, t2], a=dict(entry=a.on_entry, exit=a.on_exit, pre=a.preconditions, inv=a.invariants),
+               b=dict(entry=b.on_entry, pre=b.preconditions, inv=b.invariants),
+               t=dict(action=tr.action, guard=tr.guard, pre=tr.preconditions, post=tr.postconditions))
+    for ev in (None, 'go', 'back', 'go', 'back'):
+        if ev:
+            it.queue(ev)
+        del calls[:]
+        try:
+            step = it.execute_once()
+        except Exception as e:      # noqa
+            acc.violation('C08:true-condition-raised', 'every condition calls a function that returns True, yet %s was raised: %s'
+                          % (type(e).__name__, str(e)[:200].replace('\n', ' ')), dict(wit, event=ev))
+            return
+        # expected number of calls in this step
+        want = 0
+        if step is not None:
+            for ms in step.steps:
+                for s_ in ms.exited_states:
+                    o = sc.state_for(s_)
+                    want += (1 if getattr(o, 'on_exit', None) else 0) + len(o.postconditions)
+                if ms.transition is not None:
+                    t = ms.transition
+                    want += len(t.preconditions) + 2 * len(t.invariants) + (1 if t.action else 0) + len(t.postconditions)
+                for s_ in ms.entered_states:
+                    o = sc.state_for(s_)
+                    want += len(o.preconditions) + (1 if getattr(o, 'on_entry', None) else 0)
+            if step.transitions and step.transitions[0].guard:
+                want += 1
+        want += sum(len(sc.state_for(n).invariants) for n in it.configuration)
+        if len(calls) != want:
+            acc.violation('C08:evaluation-count', 'step on %r: %d evaluations/executions of the shared texts, expected %d'
+                          % (ev, len(calls), want), dict(wit, event=ev, calls=list(calls)))
+            return
+        acc.count('text_collision_steps')
+
+
 def run_case(acc, rnd, tier, case):
+    if case % 10 == 9:
+        return collision_case(acc, rnd)
     T = TIERS[tier]
     ch = gen_chart(rnd, contracts=True, p_contract=rnd.choice((0.35, 0.5, 0.7)), mode=rnd.choice((None, 'orth', 'history')),
                    p_hist=0.3, **T['gen'])
